@@ -1211,7 +1211,9 @@ func runArchiveReplay(args []string) int {
 			archPath = a[5:]
 		}
 	}
-	if mode == "trunc" {
+	if mode == "iff" { // the truncation / corruption set, evaluated for C13's iff clause only
+		mode, truncIffOnly = "trunc", true
+	} else if mode == "trunc" {
 		cl, err := openObsFiles(obsPath, archPath)
 		if err != nil {
 			fmt.Fprintln(os.Stderr, err)
